@@ -318,6 +318,10 @@ func c12Reqs(t *rapid.T) []Q {
 		if !q.Host && chance(t, "odd-url", 4) {
 			q.URL = pick(t, "odd", c12OddURLs)
 		}
+		if !q.Host && chance(t, "odd-source", 5) {
+			// referrers whose host part is unusual: trailing dots, empty labels, a bare dot
+			q.Src = pick(t, "odd-src", []string{"https://www.example.org./page", "http://example.org../", "http://./", "http://a./", "http://.a.com/", "http://a..com/", "https://example.org.:8443/x", "http://", "://", "http://[::1]/", "http://%41.com/"})
+		}
 		out = append(out, q)
 	}
 	return out
@@ -382,6 +386,7 @@ func genC12Line(t *rapid.T) c12Case {
 
 var c12NoisePool = []string{"! Liste fran\xe7aise", "# caf\xe9 \xff", "!\xff\xfe", "||bad\xe9^$unknownmod", "! \xc3", // not valid UTF-8
 	"#@ merged from example.org", "#@todo ads", "#?ref=example", "#%20generated banner", "#$ price ads", "#@$x", "#@? google", "#@%", "#$?", "#@",
+	"! moved, see \r||example.org^$important", "# old:\r0.0.0.0 example.org", "! x\r@@||example.org^$important\r", "!\r##.banner", // a lone carriage return does not end a line
 	"", " ", "\t", "! comment", "!", "# comment", "#", "# ||example.org^", "! ||example.org^$important", "||bad^$unknownmod", "@@", "||x^$domain=",
 	"|", "*", "||", "example.org#$#body{}", "#@#.nodomain", "||a^$dnsrewrite=;;", "||a^$client=", "$$script", "!##.x", "# 0.0.0.0 example.org", "||example.org^$popup,elemhide",
 	"||example.org^$domain=example.com|~example.net,unknownmodifier=1,third-party,script", "@@||example.org^$elemhide,popup,domain=example.com|example.net|example.org|a.com"}
